@@ -201,6 +201,20 @@ PROPS = {
         assumptions=["sketch seeds and Bloom geometry are read from the real estimator through the verif-hooks accessor and validated (bloom_geometry_ok)",
                      "the KeyHashers installed by the harness (identity, multiplicative, constant) are the ones modelled by key_hash"],
     ),
+    "C11": dict(
+        level_text="Coq theorems over the bit-level model of the estimator (packed 4-bit counters, std and no_std position functions, the doorkeeper's probe arithmetic with 64-bit truncation, tinylfu.rs) against an exact specification of aged access counts, for every sketch width up to 2^32 counters, every sample size >= 1, every Bloom geometry satisfying bloom_geometry_ok, every seed list, every raw 64-bit hash and every history of increment / try_reset / clear on a constructed estimator: exact count <= estimate <= 16; estimate = exact count when only one key was ever recorded; 0 after clear; the window counter equals the number of recorded accesses and try_resets since the last reset and a reset (counter 0, doorkeeper empty, every counter halved) happens exactly when it reaches the sample size; no doorkeeper false negatives; lt/le/gt/ge/eq compare the two estimates. Nibble arithmetic is proved by an exhaustive sweep of the 256 byte values lifted with forallb_forall. Tied to /repo by differential execution comparing every bitset word and row byte after every call, std build (seeds read through the hook) and no_std build.",
+        props_files=["C11"],
+        theorems={"C11": ["C11_spec_def", "C11_estimate_bounds", "C11_single_key_exact", "C11_clear_zero", "C11_reset_schedule",
+                          "C11_reset_effect", "C11_increment_step", "C11_compare", "C11_counter_arithmetic"]},
+        slices=dict(quick=[dict(name="tiny", slice="tiny", args=["--n", 2400, "--len", 150], shards=8),
+                           dict(name="tiny-nostd", slice="tiny", args=["--n", 1600, "--len", 150], shards=6, features="nostd")],
+                    thorough=[dict(name="tiny", slice="tiny", args=["--n", 60000, "--len", 400], shards=16),
+                              dict(name="tiny-nostd", slice="tiny", args=["--n", 40000, "--len", 400], shards=16, features="nostd")]),
+        corpus=["tiny"],
+        monitors=["mon_c11"],
+        assumptions=["the Bloom geometry (size_exp, set_locs) comes from ceil/ln computations that are not modelled: it is read from the real filter and validated by bloom_geometry_ok on every instance",
+                     "KeyHasher-keyed operations are recorded with the hash the real KeyHasher produced"],
+    ),
     "C12": dict(
         level_text="Coq theorems for all five caches, for every state satisfying the C01 invariant (hence every reachable state): put returns Put iff the key was not retained and the retained set (resident and ghost entries of every partition) became exactly the old set plus the new pair; Update(old) iff the key was retained with value old and only that pair was replaced; Evicted / EvictedAndUpdate iff exactly the reported (key, value) entry left; after put the key is resident with the new value; a capacity-0 RawLRU hands the pair back. Same for put_protected and the *_or_put family. For ARC the result kind is proved truthful and nothing is ever invented, silent losses being ghost entries (exactly described by C09). PutResult equality is proved structural. Tied to /repo by differential execution on every partition list, plus a slice exercising PutResult's hand-written ==, clone and copy on generated pairs.",
         props_files=["C12"],
